@@ -83,7 +83,7 @@ func loadEngine(repo string, patterns []string) (*Engine, error) {
 	if nerr > 0 {
 		return nil, fmt.Errorf("%d load errors in repository packages", nerr)
 	}
-	prog, spkgs := ssautil.AllPackages(pkgs, ssa.BuilderMode(0))
+	prog, spkgs := ssautil.AllPackages(pkgs, ssa.GlobalDebug)
 	prog.Build()
 	e := &Engine{
 		repo:   repo,
